@@ -43,7 +43,8 @@ SPECS = {
     "APA_Writers": {
         "cinit": "CInit", "obligations": _STD + [_ACT],
         "devs": [("CInitDev1", "act", "DEV_GlobalPrecision"), ("CInitDev2", "step", "DEV_AccumulatingRoot"),
-                 ("CInitDev3", "act", "DEV_NoTruncate"), ("CInitDev4", "act", "DEV_NetworkCached")]},
+                 ("CInitDev3", "act", "DEV_NoTruncate"), ("CInitDev4", "act", "DEV_NetworkCached"),
+                 ("CInitDev5", "act", "DEV_FailedWriteKeepsDoc")]},
     "APA_Cache": {
         "cinit": "CInit", "obligations": _STD + [_ACT],
         "devs": [("CInitDev1", "step", "DEV_NoInvalidateOnPredictionTR"), ("CInitDev2", "step", "DEV_NoReindexOnNetworkTR"),
